@@ -4,6 +4,8 @@ import (
 	"fmt"
 	"go/token"
 	"go/types"
+	"os"
+	"strconv"
 	"strings"
 
 	"golang.org/x/tools/go/ssa"
@@ -31,6 +33,74 @@ func runC03(c *Check, tier string) {
 	ruleR03e(c)
 	// the walker releases by the graph's in-edges: nothing outside the graph may rewrite them
 	ruleAdjacencyNotAliased(c, "R03f")
+	ruleNoSpawnInsideSlot(c, "R03g")
+	ruleExecutedCountsAsLoaded(c, "R03h")
+}
+
+// spawnedAt: the functions a site starts on another goroutine (go statement, or a function value handed to an
+// errgroup / pool / WaitGroup / timer spawner outside the first-party code).
+func spawnedAt(c *Check, s ssa.CallInstruction) []*ssa.Function {
+	if _, isGo := s.(*ssa.Go); isGo {
+		return c.G.CalleesOf(s)
+	}
+	cc := s.Common()
+	if cc.IsInvoke() {
+		n := engine.CalleeName(s)
+		if !(strings.HasSuffix(n, ".Go") || strings.HasSuffix(n, ".TryGo") || strings.HasSuffix(n, ".Submit") || strings.HasSuffix(n, ".SubmitErr")) {
+			return nil
+		}
+	} else {
+		h := cc.StaticCallee()
+		if h == nil || engine.IsFirstParty(pkgPathOf(h)) {
+			return nil
+		}
+		n := h.Name()
+		if !(n == "Go" || n == "TryGo" || n == "Submit" || n == "SubmitErr" || n == "AfterFunc") {
+			return nil
+		}
+	}
+	var out []*ssa.Function
+	for _, a := range cc.Args {
+		if _, ok := a.Type().Underlying().(*types.Signature); ok {
+			out = append(out, c.G.FuncValuesReaching(a)...)
+		}
+	}
+	return out
+}
+
+// R03g: one command per worker slot. The bound "at most num_workers commands at a time" is the pool's worker
+// count times one task per worker; it holds only if nothing between the task invocation and the command starts
+// further goroutines that run commands themselves.
+func ruleNoSpawnInsideSlot(c *Check, rule string) {
+	c.Rule(rule, "no goroutine started by first-party code (go statement, errgroup/WaitGroup .Go, pool Submit, time.AfterFunc) reaches the command runner except the pool's own workers: inside a worker slot commands are started one after the other", 1)
+	ex := findExec(c, rule)
+	p := findPool(c, rule)
+	if ex == nil || p == nil {
+		return
+	}
+	examined, bad := 0, 0
+	for _, fn := range c.P.Funcs {
+		for _, s := range engine.SitesIn(fn) {
+			sp := spawnedAt(c, s)
+			if len(sp) == 0 {
+				continue
+			}
+			examined++
+			for _, f := range sp {
+				if f == p.Worker {
+					continue
+				}
+				reach := c.G.ReachableFuncs([]*ssa.Function{f}, func(g *ssa.Function) bool { return g == p.Worker })
+				if reach[ex.RunCommand] {
+					bad++
+					c.Bad(rule, "spawn-reaches-command/"+c.P.FuncName(fn), "a goroutine started here runs target commands ("+c.P.FuncName(f)+" reaches "+c.P.FuncName(ex.RunCommand)+") outside the pool's worker loop: several commands run at once inside one worker slot, so more than num_workers commands can be in flight", c.P.InstrPos(s))
+				}
+			}
+		}
+	}
+	if bad == 0 {
+		c.OK(rule, "spawn-reaches-command", "none of the "+strconv.Itoa(examined)+" goroutine spawn sites of the first-party code reaches the command runner other than through the pool worker", "-")
+	}
 }
 
 type poolInfo struct {
@@ -269,4 +339,106 @@ func ruleR03e(c *Check) {
 		}
 	}
 	_ = types.Typ
+}
+
+// mustMarkCalls: the call sites in fn whose (statically resolved, first-party) callee performs a marking store
+// on every path to a successful return.
+func mustMarkCalls(c *Check, fn *ssa.Function, isMark func(ssa.Instruction) bool, depth int, memo map[*ssa.Function]int) map[ssa.Instruction]bool {
+	out := map[ssa.Instruction]bool{}
+	for _, s := range engine.SitesIn(fn) {
+		call, ok := s.(*ssa.Call)
+		if !ok {
+			continue
+		}
+		h := call.Call.StaticCallee()
+		if h == nil || len(h.Blocks) == 0 || !engine.IsFirstParty(pkgPathOf(h)) {
+			continue
+		}
+		if alwaysMarks(c, h, isMark, depth, memo) {
+			out[s] = true
+		}
+	}
+	return out
+}
+
+func alwaysMarks(c *Check, h *ssa.Function, isMark func(ssa.Instruction) bool, depth int, memo map[*ssa.Function]int) bool {
+	if v, ok := memo[h]; ok {
+		return v == 1
+	}
+	memo[h] = 0
+	if depth <= 0 {
+		return false
+	}
+	inner := mustMarkCalls(c, h, isMark, depth-1, memo)
+	cut := func(in ssa.Instruction) bool { return isMark(in) || inner[in] }
+	has := false
+	for _, b := range h.Blocks {
+		for _, in := range b.Instrs {
+			if cut(in) {
+				has = true
+			}
+		}
+	}
+	if !has {
+		return false
+	}
+	var reach bool
+	if engine.ErrResultIndex(h.Signature) >= 0 {
+		reach, _ = nilReturnReachable(h, engine.PathQuery{CutInstr: cut, Shallow: true}, 0)
+	} else {
+		reach, _ = engine.PathExists(h, nil, func(in ssa.Instruction) bool { _, r := in.(*ssa.Return); return r && in.Parent() == h }, engine.PathQuery{CutInstr: cut, Shallow: true})
+	}
+	if !reach {
+		memo[h] = 1
+	}
+	return !reach
+}
+
+// R03h: an executed target counts as materialised. Under load_outputs=minimal a dependant loads the outputs of
+// its dependencies before it runs and re-runs a dependency whose outputs cannot be loaded; the per-target
+// OutputsLoaded mark is what tells it that a dependency executed in this build needs neither.
+func ruleExecutedCountsAsLoaded(c *Check, rule string) {
+	c.Rule(rule, "the completion function sets Target.OutputsLoaded on every path to success (whether or not the cache is written): a dependant that loads its dependencies' outputs finds an executed dependency materialised and does not run it a second time", 1)
+	ex := findExec(c, rule)
+	if ex == nil {
+		return
+	}
+	fkey := fk("model.Target", "OutputsLoaded")
+	isMark := func(in ssa.Instruction) bool {
+		st, ok := in.(*ssa.Store)
+		if !ok {
+			return false
+		}
+		fa, ok := st.Addr.(*ssa.FieldAddr)
+		if !ok || engine.FieldKeyOf(fa.X.Type(), fa.Field) != fkey {
+			return false
+		}
+		k, isK := engine.BoolConst(st.Val)
+		return isK && k
+	}
+	memo := map[*ssa.Function]int{}
+	key := "executed-counts-as-loaded/" + c.P.FuncName(ex.Complete)
+	// the mark may sit in the completion function or, after it returned nil, in the executing method
+	for _, host := range []*ssa.Function{ex.Complete, ex.ExecMethod} {
+		inner := mustMarkCalls(c, host, isMark, 3, memo)
+		cut := func(in ssa.Instruction) bool { return isMark(in) || inner[in] }
+		reach, at := nilReturnReachable(host, engine.PathQuery{CutInstr: cut, Shallow: true}, 0)
+		if os.Getenv("GROGDBG") != "" {
+			for in := range inner {
+				println("inner", c.P.InstrPos(in))
+			}
+			println("host", host.Name(), reach)
+		}
+		if !reach {
+			c.OK(rule, key, "every successful return of "+c.P.FuncName(host)+" is preceded by OutputsLoaded = true", c.P.Pos(host.Pos()))
+			return
+		}
+		if host == ex.ExecMethod {
+			pos := c.P.Pos(ex.Complete.Pos())
+			if at != nil {
+				pos = c.P.InstrPos(at)
+			}
+			c.Bad(rule, key, "a target can complete successfully without being marked OutputsLoaded (for instance when the cache is disabled or the target is tagged no-cache and the mark is only set where the cache is written): under load_outputs=minimal every dependant then fails to load its outputs and runs it again, so one build executes the target more than once", pos)
+		}
+	}
 }
